@@ -5,8 +5,10 @@ package checks
 import (
 	"encoding/binary"
 	"fmt"
+	"net"
 	"os"
 	"os/exec"
+	"reflect"
 	"sort"
 	"strings"
 	"sync"
@@ -14,6 +16,7 @@ import (
 
 	"github.com/contiv/libOpenflow/common"
 	of "github.com/contiv/libOpenflow/openflow13"
+	"github.com/contiv/libOpenflow/util"
 	verifrt "github.com/contiv/libOpenflow/verifrt"
 
 	"verif/bind"
@@ -270,6 +273,57 @@ func maxOf(v uint64) uint64 {
 	return ^uint64(0)
 }
 
+type c14Ctor struct {
+	name string
+	f    func() any
+}
+
+// c14Ctors lists the constructors that hand out a message with a fresh header.
+func c14Ctors() []c14Ctor {
+	return []c14Ctor{
+		{"common.NewHello", func() any { h, _ := common.NewHello(4); return h }},
+		{"common.NewHeaderGenerator(4)()", func() any { h := common.NewHeaderGenerator(4)(); return &h }},
+		{"NewOfp13Header", func() any { h := of.NewOfp13Header(); return &h }},
+		{"NewEchoRequest", func() any { return of.NewEchoRequest() }},
+		{"NewEchoReply", func() any { return of.NewEchoReply() }},
+		{"NewConfigRequest", func() any { return of.NewConfigRequest() }},
+		{"NewFeaturesRequest", func() any { return of.NewFeaturesRequest() }},
+		{"NewFeaturesReply", func() any { return of.NewFeaturesReply() }},
+		{"NewSetConfig", func() any { return of.NewSetConfig() }},
+		{"NewPacketOut", func() any { return of.NewPacketOut() }},
+		{"NewPacketIn", func() any { return of.NewPacketIn() }},
+		{"NewFlowMod", func() any { return of.NewFlowMod() }},
+		{"NewFlowRemoved", func() any { return of.NewFlowRemoved() }},
+		{"NewGroupMod", func() any { return of.NewGroupMod() }},
+		{"NewPortMod", func() any { return of.NewPortMod(1) }},
+		{"NewPortStatus", func() any { return of.NewPortStatus() }},
+		{"NewNXTVendorHeader", func() any { return of.NewNXTVendorHeader(of.Type_SetControllerId) }},
+		{"NewSetControllerID", func() any { return of.NewSetControllerID(1) }},
+		{"NewTLVTableModMessage", func() any { return of.NewTLVTableModMessage(of.NewTLVTableMod(0, nil)) }},
+		{"NewTLVTableRequest", func() any { return of.NewTLVTableRequest() }},
+		{"NewBundleControl", func() any { return of.NewBundleControl(&of.BundleControl{BundleID: 1}) }},
+		{"NewBundleAdd", func() any { return of.NewBundleAdd(&of.BundleAdd{BundleID: 1, Message: of.NewEchoRequest()}) }},
+		{"NewBundleError", func() any { return of.NewBundleError() }},
+	}
+}
+
+// c14Xid calls a constructor and reads the transaction id of what it returns.
+func c14Xid(f func() any) (x uint32, pn any) {
+	defer func() {
+		if p := recover(); p != nil {
+			pn = p
+		}
+	}()
+	v := reflect.ValueOf(f())
+	for v.Kind() == reflect.Ptr {
+		v = v.Elem()
+	}
+	if f := v.FieldByName("Xid"); f.IsValid() {
+		return uint32(f.Uint()), nil
+	}
+	return uint32(v.FieldByName("Header").FieldByName("Xid").Uint()), nil
+}
+
 type c14Scenario struct {
 	Bodies [][]c14Op `json:"bodies"`
 	Start  uint32    `json:"start_xid"`
@@ -466,6 +520,42 @@ func c14(r *ev.Run, replay string) {
 			}
 		}
 	})
+	// every constructor that stamps a header draws its own id: all ordered pairs (a, b) of the 24
+	// constructors, called a, b, a on one goroutine from two start values; the three ids are distinct.
+	// (The interleavings of the draw itself are explored below with the generators G and H, which every
+	// constructor calls; this sweep is about which constructors draw at all.)
+	{
+		ctors := c14Ctors()
+		var n int64
+		for _, st := range []uint32{1, 0xfffffffe} {
+			for i, a := range ctors {
+				for j, b := range ctors {
+					common.VerifSetXid(st)
+					x1, p1 := c14Xid(a.f)
+					x2, p2 := c14Xid(b.f)
+					x3, p3 := c14Xid(a.f)
+					n++
+					rep := map[string]any{"constructors": []string{a.name, b.name, a.name}, "start_xid": st}
+					if p1 != nil || p2 != nil || p3 != nil {
+						if i == j {
+							r.Violation("constructor-panic:"+a.name, fmt.Sprintf("%s panicked: %v %v %v", a.name, p1, p2, p3), rep)
+						}
+						continue
+					}
+					if x1 == x2 || x2 == x3 || x1 == x3 {
+						who := a.name
+						if x1 != x3 {
+							who = b.name
+						}
+						r.Violation("duplicate-xid:constructor:"+who, fmt.Sprintf("%s, %s, %s called one after the other carry the transaction ids %#x, %#x, %#x", a.name, b.name, a.name, x1, x2, x3), rep)
+					}
+				}
+			}
+		}
+		r.Add("transitions", 3*n)
+		r.Set("constructor_triples", n)
+		r.Completed(fmt.Sprintf("X all ordered pairs of the %d header-stamping constructors called a, b, a: three distinct ids", len(ctors)))
+	}
 	r.Set("independent_value_pairs_compared", pairs)
 	r.Completed("M every message of the controller-originated corpus built twice (constructors, and through Parse): the two object graphs share no slice backing array and no struct")
 	var scenarios, execs int64
@@ -633,6 +723,82 @@ func racePass(r *ev.Run, id string) {
 }
 
 // c14RacePass is the body of the -race binary: the same operations on real goroutines.
+// c14StreamRound drives one MessageStream over net.Pipe with real goroutines.
+func c14StreamRound(nIn, nOut int) string {
+	a, b := net.Pipe()
+	ms := util.NewMessageStream(a, ofParser{})
+	done := make(chan string, 3)
+	go func() { // the switch side: writes nIn echo requests, cut at odd places
+		var all []byte
+		for i := 0; i < nIn; i++ {
+			f := []byte{4, 2, 0, 12, 0, 0, byte(i >> 8), byte(i), byte(i), byte(i + 1), byte(i + 2), byte(i + 3)}
+			all = append(all, f...)
+		}
+		for len(all) > 0 {
+			n := 7
+			if n > len(all) {
+				n = len(all)
+			}
+			if _, err := b.Write(all[:n]); err != nil {
+				done <- "write to the pipe failed: " + err.Error()
+				return
+			}
+			all = all[n:]
+		}
+		done <- ""
+	}()
+	go func() { // the switch side reads what the stream writes
+		buf := make([]byte, 4096)
+		got := 0
+		for got < nOut*8 {
+			n, err := b.Read(buf)
+			if err != nil {
+				done <- "read from the pipe failed: " + err.Error()
+				return
+			}
+			got += n
+		}
+		done <- ""
+	}()
+	go func() {
+		for i := 0; i < nOut; i++ {
+			ms.Outbound <- of.NewEchoRequest()
+		}
+	}()
+	seen := map[uint32]bool{}
+	timeout := time.After(60 * time.Second)
+	for len(seen) < nIn {
+		select {
+		case m := <-ms.Inbound:
+			h, ok := m.(*common.Header)
+			if !ok || h == nil {
+				return fmt.Sprintf("delivery %d is a %T", len(seen), m)
+			}
+			if seen[h.Xid] {
+				return fmt.Sprintf("frame %d was delivered twice", h.Xid)
+			}
+			seen[h.Xid] = true
+		case err := <-ms.Error:
+			return "the stream reported an error: " + err.Error()
+		case <-timeout:
+			fmt.Printf("RACEPASS stream round cut short after a minute (%d of %d frames delivered): no verdict from it\n", len(seen), nIn)
+			return "" // wall-clock time is no oracle: losses are C10's subject, this pass is here for the race detector
+		}
+	}
+	for i := 0; i < 2; i++ {
+		select {
+		case e := <-done:
+			if e != "" {
+				return e
+			}
+		case <-timeout:
+			return ""
+		}
+	}
+	ms.Shutdown <- true
+	return ""
+}
+
 func c14RacePass() {
 	c14Init()
 	ref := map[string]string{}
@@ -673,6 +839,16 @@ func c14RacePass() {
 				}
 			}
 		}
+	}
+	// the stream's goroutines (reader, 25 parsers, writer) on a real in-memory connection, free-running:
+	// 150 frames in (three times round the buffer pool) while 40 messages go out; the race detector
+	// watches the buffers change hands
+	for rep := 0; rep < 3; rep++ {
+		if lost := c14StreamRound(150, 40); lost != "" {
+			fmt.Println("RACEPASS stream:", lost)
+			mism++
+		}
+		rounds++
 	}
 	fmt.Printf("RACEPASS rounds=%d mismatches=%d duplicate_ids=%d\n", rounds, mism, dups)
 	if mism > 0 || dups > 0 {
